@@ -583,8 +583,11 @@ class RefParser:
             raise Fail()
         if n == 0:
             return p, []
-        a = Asg(e.attr, e.op, items, objref, items[0][0].start if items[0] else pos,
-                dangling_end if dangling_end is not None else p)
+        end = dangling_end if dangling_end is not None else p
+        if 'dangling-separator' in self.emulate and items[-1]:
+            # a separator left dangling inside the last item extends that item and therefore the list
+            end = max(end, items[-1][-1].end)
+        a = Asg(e.attr, e.op, items, objref, items[0][0].start if items[0] else pos, end)
         a.seps = seps
         return p, [a]
 
